@@ -94,7 +94,16 @@ def _untag_case(it):
 
 
 @contract("FileHashStore._untag_object", cases={"any": _untag_case},
-          pre=lambda it, self, pid, cid: [("cid-is-digest", T.ishex(str_of(it, cid)))],
+          pre=lambda it, self, pid, cid: [
+              ("cid-is-digest", T.ishex(str_of(it, cid))),
+              # derived from the call site (the reverting handler of _store_hashstore_refs_files):
+              # the roll-back runs for a pid that this tagging step found unbound and may have
+              # bound to `cid` itself; a caller that could pass a pid bound to another cid fails
+              # this obligation (the body's own cid comparison is then a defensive check)
+              ("pid-unbound-or-bound-to-this-cid",
+               z3.Or(T.is_Absent(fsget(it, pidref_loc(self, str_of(it, pid)))),
+                     fsget(it, pidref_loc(self, str_of(it, pid))) == T.Data(str_of(it, cid))))],
+          inline_pre=("pid-unbound-or-bound-to-this-cid",),
           props={"*": ("C13", "C05", "C04")})
 def _untag_object(it, self, pid, cid):
     """Remove the pid reference and the pid's line from the cid's list - never the data object -
